@@ -577,11 +577,19 @@ def _validate_run(q, i, x, inert=None):
                 snap_at = q.snaps[n2.value.id][2]
                 stage = 'consumeB'
                 continue
-            return 'not dominated by a successful %s.eat_while(is_number) (last scanner event before it: `%s`)' % (x, q.rsrc(n2))
+            return ('undecided', 'not dominated by a recognised digit scan (last scanner event before it: `%s`)' % q.rsrc(n2))
         if stage == 'startA':
             if isinstance(n2, ast.Assign) and src_of(n2.targets[0]) == '%s.start' % x and src_of(n2.value) == '%s.pos' % x:
                 return True
-            return 'statement `%s` touches the scanner between `%s.start = %s.pos` and the digit run' % (q.rsrc(n2), x, x)
+            meth = n2.func.attr if isinstance(n2, ast.Call) and isinstance(n2.func, ast.Attribute) and src_of(n2.func.value) == x else None
+            if meth in ('peek', 'eof', 'current', 'substring', 'error', 'sol', 'readable'):
+                continue            # looks, does not move
+            if meth in ('eat', 'eat_while') and (s2, False) in conds:
+                continue            # failed on this path: a failed eat leaves the scanner where it was
+            moves = meth in ('eat', 'eat_while', 'next', 'back_up') or (isinstance(n2, ast.Assign) and src_of(n2.targets[0]) == '%s.pos' % x)
+            if moves:
+                return 'statement `%s` moves the scanner between `%s.start = %s.pos` and the digit run: the converted text contains more than the digits' % (q.rsrc(n2), x, x)
+            return ('undecided', 'statement `%s` touches the scanner between `%s.start = %s.pos` and the digit run' % (q.rsrc(n2), x, x))
         if stage == 'consumeB':
             fn = n2.func if isinstance(n2, ast.Call) else None
             nm = fn.id if isinstance(fn, ast.Name) else None
@@ -593,9 +601,9 @@ def _validate_run(q, i, x, inert=None):
                 between = [e for e in ev[snap_at:k] if not e[0].startswith(('_iter', '@')) and sympath.touches(e[1], x)]
                 if snap_at <= k and not between:
                     return True
-                return 'the saved start position is not the position right before %s(%s)' % (nm, x)
-            return 'statement `%s` touches the scanner between %s and the read of the run' % (q.rsrc(n2), '/'.join(NUMBER_CONSUMERS))
-    return '`%s.start = %s.pos` does not precede the digit run' % (x, x) if stage == 'startA' else 'not dominated by a successful digit scan'
+                return ('undecided', 'the saved start position is not the position right before %s(%s)' % (nm, x))
+            return ('undecided', 'statement `%s` touches the scanner between %s and the read of the run' % (q.rsrc(n2), '/'.join(NUMBER_CONSUMERS)))
+    return ('undecided', '`%s.start = %s.pos` does not precede the digit run' % (x, x) if stage == 'startA' else 'not dominated by a recognised digit scan')
 
 
 def _param_converters(p):
@@ -711,8 +719,11 @@ def exc_numconv(p, res):
                 elif all(v is True for v in vs):
                     res.ok('%s: %s after a successful digit scan starting at scanner.start' % (f.short, src_of(n)))
                 else:
-                    why = next(v for v in vs if v is not True)
-                    res.bad(F('EXC-NUMCONV', f, n, src_of(n), why + ': ValueError possible / wrong text converted'))
+                    hard = [v for v in vs if isinstance(v, str)]
+                    if hard:
+                        res.bad(F('EXC-NUMCONV', f, n, src_of(n), hard[0] + ': ValueError possible / wrong text converted'))
+                    else:
+                        res.undecided('%s: %s' % (f.short, src_of(n)), next(v for v in vs if v is not True)[1])
                 continue
             # (a') a parameter converted directly: decided at the call sites
             if isinstance(arg, ast.Name) and (f.qualname, f.params.index(arg.id) if arg.id in f.params else -1) in converters:
@@ -721,7 +732,11 @@ def exc_numconv(p, res):
                 if vs and all(v is True for _, v in vs) and ncallers:
                     res.ok('%s: %s: every call site passes scanner.current() after a successful number scan' % (f.short, src_of(n)))
                     continue
-                bad = [(g, v) for g, v in vs if v is not True]
+                bad = [(g, v) for g, v in vs if isinstance(v, str)]
+                und = [(g, v) for g, v in vs if isinstance(v, tuple)]
+                if not bad and und:
+                    res.undecided('%s: %s(.. scanner.current() ..)' % (und[0][0].short, f.name), und[0][1][1])
+                    continue
                 if bad:
                     res.bad(F('EXC-NUMCONV', bad[0][0], bad[0][0].node, '%s(.. %s.current() ..)' % (f.name, 'scanner'), bad[0][1] + ': ValueError possible / wrong text converted'))
                     continue
